@@ -55,6 +55,20 @@ const U_POLL: u32 = 107;
 const U_PUSH: u32 = 110;
 const U_PUSHED: u32 = 111;
 
+#[derive(Default)]
+struct CountWaker(std::sync::atomic::AtomicUsize);
+
+impl std::task::Wake for CountWaker {
+    fn wake(self: std::sync::Arc<Self>) {
+        self.0.fetch_add(1, std::sync::atomic::Ordering::SeqCst);
+    }
+    fn wake_by_ref(self: &std::sync::Arc<Self>) {
+        self.0.fetch_add(1, std::sync::atomic::Ordering::SeqCst);
+    }
+}
+
+const U_SETWAKER: u32 = 108;
+
 fn errno_of(e: &std::io::Error) -> u64 {
     e.raw_os_error().unwrap_or(9999) as u64
 }
@@ -117,10 +131,14 @@ fn run(case: &[u64]) -> Result<Vec<u64>, BadCase> {
     });
     builder.thread_pool_limit(4);
     let mut pairs = Vec::new();
+    let mut dups: Vec<SharedFd<UnixStream>> = Vec::new();
     for _ in 0..n_res {
         let (a, b) = UnixStream::pair().map_err(|_| BadCase)?;
         a.set_nonblocking(true).ok();
         b.set_nonblocking(true).ok();
+        let dup = a.try_clone().map_err(|_| BadCase)?;
+        dup.set_nonblocking(true).ok();
+        dups.push(SharedFd::new(dup));
         pairs.push((SharedFd::new(a), b, 0u16 /* next byte to write */));
     }
 
@@ -134,6 +152,8 @@ fn run(case: &[u64]) -> Result<Vec<u64>, BadCase> {
     let mut jobs_started = 0usize;
     let mut proactor = Some(builder.build().map_err(|_| BadCase)?);
     let mut slots: Vec<Slot> = Vec::new();
+    let wake_counts: Vec<std::sync::Arc<CountWaker>> =
+        (0..16).map(|_| std::sync::Arc::new(CountWaker::default())).collect();
     let mut listener: Option<SharedFd<socket2::Socket>> = None;
     let mut listen_addr: Option<std::net::SocketAddr> = None;
     let mut clients: Vec<std::net::TcpStream> = Vec::new();
@@ -161,22 +181,22 @@ fn run(case: &[u64]) -> Result<Vec<u64>, BadCase> {
             continue;
         };
         match op {
-            1 | 2 | 3 | 12 | 14 => {
+            1 | 2 | 3 | 12 | 14 | 18 => {
                 let slot = slots.len() as u64;
                 let mut sr = SlotRes {
-                    kind: op,
+                    kind: if op == 18 { 1 } else { op },
                     res: a,
                     ..Default::default()
                 };
                 verif::emit(U_PUSH, slot, 0);
                 match op {
-                    1 => {
+                    1 | 18 => {
                         let r = a as usize;
                         if r >= pairs.len() {
                             return Err(BadCase);
                         }
                         let o = Recv::new(
-                            pairs[r].0.clone(),
+                            if op == 18 { dups[r].clone() } else { pairs[r].0.clone() },
                             Vec::with_capacity((b as usize).max(1)),
                             RecvFlags::empty(),
                         );
@@ -502,6 +522,31 @@ fn run(case: &[u64]) -> Result<Vec<u64>, BadCase> {
                 }
                 drop(proactor.take());
             }
+            16 => {
+                // a wake-up of the driver (as a task waker / another thread would do)
+                p.waker().wake();
+            }
+            17 => {
+                // (re)register waker `b` for the operation in slot `a`
+                let i = a as usize;
+                let w = std::task::Waker::from(wake_counts[(b % 16) as usize].clone());
+                macro_rules! setw {
+                    ($k:expr) => {
+                        if let Some(key) = $k.as_ref() {
+                            verif::emit(U_SETWAKER, i as u64 + (1 << 32), (b % 16) as i64);
+                            p.update_waker(key, &w);
+                        }
+                    };
+                }
+                match slots.get(i) {
+                    Some(Slot::Recv(k)) => setw!(k),
+                    Some(Slot::Send(k)) => setw!(k),
+                    Some(Slot::Block(k)) => setw!(k),
+                    Some(Slot::Zc(k)) => setw!(k),
+                    Some(Slot::Acc(k)) => setw!(k),
+                    None => {}
+                }
+            }
             15 => {
                 // `a` clients connect to the listener
                 if let Some(addr) = listen_addr {
@@ -689,6 +734,10 @@ fn run(case: &[u64]) -> Result<Vec<u64>, BadCase> {
             r.contiguous,
             r.key_id.map_or(9_999_999, |k| k),
         ]);
+    }
+    out.push(16);
+    for w in &wake_counts {
+        out.push(w.0.load(std::sync::atomic::Ordering::SeqCst) as u64);
     }
     Ok(out)
 }
